@@ -53,7 +53,9 @@ class PathNS(StandIn):
 
 
 def seg(name, degree):
-    return Obj(name, degree=degree, ctrlpoints=tuple(PV(Fr(10 * ord(name[-1]) + i), Fr(i * i)) for i in range(degree + 1)))
+    # coordinates away from the origin that need nine significant digits (97001.3125 ...)
+    return Obj(name, degree=degree, ctrlpoints=tuple(PV(Fr(1000 * ord(name[-1]) + i) + Fr(5, 16), Fr(i * i) - Fr(73156, 100) - Fr(1, 400))
+                                                     for i in range(degree + 1)))
 
 
 def with_globals(ctx, fn, args, globs, hook=None, enter=(), kwargs=None):
